@@ -219,6 +219,12 @@ impl Report {
                     let _ = std::fs::write(part, serde_json::to_vec(&*self).unwrap_or_default());
                 }
             }
+            if crate::lacebox::spin_seen() && ctx.part.is_some() {
+                // a session thread of this worker spins for good (it cannot be killed and its
+                // redirected streams are lost): the finding is in the part file, the worker ends
+                crate::lacebox::log("harness: worker ends after recording a spinning session");
+                std::process::exit(86);
+            }
             return true;
         }
         false
@@ -356,6 +362,9 @@ impl Driver {
         let mut best_obs = obs;
         let mut iters = 0;
         'shrink: loop {
+            if crate::lacebox::spin_seen() {
+                break 'shrink;
+            }
             if !tree.simplify() {
                 break;
             }
